@@ -359,6 +359,8 @@ class Program:
         yield_(e); None when the program uses things the twin printer does not cover"""
         if getattr(self, "standalone_full", None) or getattr(self, "standalone", None) or self.driver:
             return None
+        if getattr(self, "form", "func") == "nested":
+            pass  # YieldFrom(inner()) of the whole body is the body itself
         helpers = ""
         if self.helpers:
             if self.helpers.strip() != C01_HELPERS_TEXT.strip():
@@ -385,16 +387,47 @@ class Program:
         if getattr(self, "standalone", None):
             text = self.standalone.replace("@", self.pid) + "\n" + std_driver(self.name, K, extra_adv, nlo, nhi, self.ret_type)
             return text
+        form = getattr(self, "form", "func")
+        T = self.ret_type
+        body_named = p_stmts(self.body, 1)
+        body_unnamed = [l + " nil" if l.strip() == "return" else l for l in p_stmts(self.body, 1)]
         lines = []
-        if self.named_result:
-            lines.append("func %s%s (_ Iter[%s]) {" % (self.name, SIG, self.ret_type))
-            lines += p_stmts(self.body, 1)
-            lines.append("\treturn")
+        if form == "func":
+            if self.named_result:
+                lines.append("func %s%s (_ Iter[%s]) {" % (self.name, SIG, T))
+                lines += body_named + ["\treturn"]
+            else:
+                lines.append("func %s%s Iter[%s] {" % (self.name, SIG, T))
+                lines += body_unnamed + ["\treturn nil"]
+            lines.append("}")
+        elif form == "lit":
+            # the generator is a function literal capturing the parameters of a plain function
+            lines.append("func %s%s Iter[%s] {" % (self.name, SIG, T))
+            lines.append("\tgen := func() Iter[%s] {" % T)
+            lines += ["\t" + l for l in body_unnamed] + ["\t\treturn nil", "\t}", "\treturn gen()", "}"]
+        elif form == "method":
+            lines.append("type recv%s struct {\n\ta, b, n       int\n\tg1, g2, g3 bool\n}\n" % self.pid)
+            lines.append("func (r recv%s) Gen() (_ Iter[%s]) {" % (self.pid, T))
+            lines.append("\ta, b, n, g1, g2, g3 := r.a, r.b, r.n, r.g1, r.g2, r.g3\n\t_, _, _, _, _, _ = a, b, n, g1, g2, g3")
+            lines += body_named + ["\treturn", "}", ""]
+            lines.append("func %s%s Iter[%s] {\n\treturn recv%s{a, b, n, g1, g2, g3}.Gen()\n}" % (self.name, SIG, T, self.pid))
+        elif form == "ptrmethod":
+            lines.append("type recv%s struct {\n\ta, b, n       int\n\tg1, g2, g3 bool\n}\n" % self.pid)
+            lines.append("func (r *recv%s) Gen() Iter[%s] {" % (self.pid, T))
+            lines.append("\ta, b, n, g1, g2, g3 := r.a, r.b, r.n, r.g1, r.g2, r.g3\n\t_, _, _, _, _, _ = a, b, n, g1, g2, g3")
+            lines += body_unnamed + ["\treturn nil", "}", ""]
+            lines.append("func %s%s Iter[%s] {\n\treturn (&recv%s{a, b, n, g1, g2, g3}).Gen()\n}" % (self.name, SIG, T, self.pid))
+        elif form == "generic":
+            lines.append("func gg%s[E any](_ E, a, b, n int, g1, g2, g3 bool) (_ Iter[%s]) {" % (self.pid, T))
+            lines += body_named + ["\treturn", "}", ""]
+            lines.append("func %s%s Iter[%s] {\n\treturn gg%s(\"x\", a, b, n, g1, g2, g3)\n}" % (self.name, SIG, T, self.pid))
+        elif form == "nested":
+            # a generator that defines a function-literal generator and delegates to it
+            lines.append("func %s%s (_ Iter[%s]) {" % (self.name, SIG, T))
+            lines.append("\tinner := func() Iter[%s] {" % T)
+            lines += ["\t" + l for l in body_unnamed] + ["\t\treturn nil", "\t}", "\tYieldFrom(inner())", "\treturn", "}"]
         else:
-            lines.append("func %s%s Iter[%s] {" % (self.name, SIG, self.ret_type))
-            lines += [l + " nil" if l.strip() == "return" else l for l in p_stmts(self.body, 1)]
-            lines.append("\treturn nil")
-        lines.append("}")
+            raise ValueError(form)
         lines.append("")
         if self.helpers:
             lines.append(self.helpers)
@@ -405,6 +438,9 @@ class Program:
         for h in ("H1", "H2", "H3", "H4", "R1", "R2"):
             text = text.replace(h + "(", "%s_%s(" % (h, self.pid))
         return text
+
+
+FORMS = ["func", "func", "func", "lit", "method", "ptrmethod", "generic", "nested"]
 
 
 def std_driver(name, K, extra_adv, nlo, nhi, ret_type="int"):
